@@ -6,7 +6,8 @@ use std::collections::BTreeMap;
 #[derive(Debug, Clone, PartialEq)]
 pub enum Val {
     Int(i128, String),
-    Float(f64, String),
+    /// value (for an `f32` suffix: the f32 value, widened), suffix, digits as written
+    Float(f64, String, String),
     Bool(bool),
     Str(String),
     /// A path used as a value: unit variant, constant, `None`.
@@ -72,14 +73,27 @@ pub fn eval(e: &syn::Expr) -> Val {
     use syn::Expr;
     match e {
         Expr::Lit(l) => match &l.lit {
+            syn::Lit::Int(i) if i.suffix() == "f32" || i.suffix() == "f64" => {
+                // e.g. `16777216f32`: lexically an integer literal with a float suffix
+                let digits = i.base10_digits().to_string();
+                let v = if i.suffix() == "f32" { digits.parse::<f32>().map(|x| x as f64) } else { digits.parse::<f64>() };
+                match v {
+                    Ok(v) => Val::Float(v, i.suffix().to_string(), digits),
+                    Err(_) => Val::Unknown(format!("float:{}", i)),
+                }
+            }
             syn::Lit::Int(i) => match i.base10_parse::<i128>() {
                 Ok(v) => Val::Int(v, i.suffix().to_string()),
                 Err(_) => Val::Unknown(format!("int:{}", i)),
             },
-            syn::Lit::Float(f) => match f.base10_parse::<f64>() {
-                Ok(v) => Val::Float(v, f.suffix().to_string()),
-                Err(_) => Val::Unknown(format!("float:{}", f)),
-            },
+            syn::Lit::Float(f) => {
+                let digits = f.base10_digits().to_string();
+                let v = if f.suffix() == "f32" { digits.parse::<f32>().map(|x| x as f64) } else { digits.parse::<f64>() };
+                match v {
+                    Ok(v) => Val::Float(v, f.suffix().to_string(), digits),
+                    Err(_) => Val::Unknown(format!("float:{}", f)),
+                }
+            }
             syn::Lit::Bool(b) => Val::Bool(b.value),
             syn::Lit::Str(s) => Val::Str(s.value()),
             other => Val::Unknown(format!("lit:{}", tokens_string(other))),
